@@ -168,6 +168,41 @@ def extract(tree):
     return flags, c, inc, order_m, order_u
 
 
+def _calls(body, what):
+    """the janet_(un)marshal_* context calls of a hook, in statement order; a loop / branch shape the model does not have raises"""
+    return [m.group(1) for m in re.finditer(r"\bjanet_(?:un)?marshal_(abstract_threaded|abstract|int64|int|size|byte|bytes|janet|ptr)\s*\(", body)]
+
+
+def extract_hooks(tree):
+    """call sequences of the int64 and channel marshal / unmarshal hooks (inttypes.c, ev.c)"""
+    it = csrc.strip_comments(csrc.read(tree, "src/core/inttypes.c"))
+    ev = csrc.strip_comments(csrc.read(tree, "src/core/ev.c"))
+    out = {}
+    out["int64MarshalCalls"] = _calls(csrc.func_body(it, "int64_marshal"), "int64_marshal")
+    out["int64UnmarshalCalls"] = _calls(csrc.func_body(it, "int64_unmarshal"), "int64_unmarshal")
+    for ty in ("janet_s64_type", "janet_u64_type"):
+        m = re.search(r"const\s+JanetAbstractType\s+%s\s*=\s*\{([^}]*)\}" % ty, it)
+        if not m or not re.search(r"\bint64_marshal\s*,\s*int64_unmarshal\b", m.group(1)):
+            raise ExtractError("%s: marshal / unmarshal hooks are not int64_marshal, int64_unmarshal" % ty)
+    cm = csrc.func_body(ev, "janet_chanat_marshal")
+    cu = csrc.func_body(ev, "janet_chanat_unmarshal")
+    out["chanMarshalCalls"] = _calls(cm, "janet_chanat_marshal")
+    out["chanUnmarshalCalls"] = _calls(cu, "janet_chanat_unmarshal")
+    # shapes the model relies on: queue written from head to tail (with wrap-around), count = janet_q_count, negative count panics,
+    # one janet_unmarshal_janet per counted item pushed in order
+    if not re.search(r"int32_t\s+count\s*=\s*janet_q_count\s*\(\s*&channel->items\s*\)\s*;\s*janet_marshal_int\s*\(\s*ctx\s*,\s*count\s*\)", cm):
+        raise ExtractError("janet_chanat_marshal: count is not janet_q_count(&channel->items)")
+    if not re.search(r"if\s*\(\s*items->head\s*<=\s*items->tail\s*\)\s*\{\s*for\s*\(\s*int32_t\s+i\s*=\s*items->head\s*;\s*i\s*<\s*items->tail\s*;\s*i\+\+\s*\)\s*janet_marshal_janet\s*\(\s*ctx\s*,\s*data\[i\]\s*\)\s*;\s*\}\s*else\s*\{\s*"
+                     r"for\s*\(\s*int32_t\s+i\s*=\s*items->head\s*;\s*i\s*<\s*items->capacity\s*;\s*i\+\+\s*\)\s*janet_marshal_janet\s*\(\s*ctx\s*,\s*data\[i\]\s*\)\s*;\s*"
+                     r"for\s*\(\s*int32_t\s+i\s*=\s*0\s*;\s*i\s*<\s*items->tail\s*;\s*i\+\+\s*\)\s*janet_marshal_janet\s*\(\s*ctx\s*,\s*data\[i\]\s*\)\s*;", cm):
+        raise ExtractError("janet_chanat_marshal: queue walk head..tail with wrap-around not recognised")
+    if not re.search(r"int32_t\s+count\s*=\s*janet_unmarshal_int\s*\(\s*ctx\s*\)\s*;\s*if\s*\(\s*count\s*<\s*0\s*\)\s*janet_panic", cu):
+        raise ExtractError("janet_chanat_unmarshal: negative count test not recognised")
+    if not re.search(r"for\s*\(\s*int32_t\s+i\s*=\s*0\s*;\s*i\s*<\s*count\s*;\s*i\+\+\s*\)\s*\{\s*Janet\s+item\s*=\s*janet_unmarshal_janet\s*\(\s*ctx\s*\)\s*;\s*janet_q_push\s*\(\s*&abst->items\s*,\s*&item\s*,\s*sizeof\s*\(\s*item\s*\)\s*\)\s*;\s*\}", cu):
+        raise ExtractError("janet_chanat_unmarshal: item loop not recognised")
+    return out
+
+
 def render(tree):
     flags, c, inc, order_m, order_u = extract(tree)
     out = [csrc.lean_header("src/core/marsh.c, src/include/janet.h"), "namespace JanetModel.Gen.MarshCode\n"]
@@ -184,5 +219,8 @@ def render(tree):
     out.append("\n/-- statement order of marshal_one_def / unmarshal_one_def (`?FLAG:` = only when the flag bit is set) -/")
     out.append("def defOrderMarshal : List String := [" + ", ".join('"%s"' % t for t in order_m) + "]")
     out.append("def defOrderUnmarshal : List String := [" + ", ".join('"%s"' % t for t in order_u) + "]")
+    out.append("\n/-- context calls of the int64 and channel hooks, in statement order (loops: each call site once) -/")
+    for k, v in extract_hooks(tree).items():
+        out.append("def %s : List String := [" % k + ", ".join('"%s"' % t for t in v) + "]")
     out.append("\nend JanetModel.Gen.MarshCode\n")
     return "\n".join(out)
